@@ -13,7 +13,7 @@ from vlib import log
 
 LEVEL = "model_checking"
 
-API_EVS = {"reset", "new_writer", "drop_writer", "add", "del", "run", "delete_all", "commit", "prepare_commit",
+API_EVS = {"reset", "new_writer", "drop_writer", "open_second", "switch_index", "add", "del", "run", "delete_all", "commit", "prepare_commit",
            "prepare_abort", "rollback", "merge", "wait_merges", "gc", "observe", "end", "merge_uncommitted", "wait_uncommitted"}
 
 
@@ -442,6 +442,8 @@ def run(ctx):
     ev = replay_generated(ctx, 150 if ctx.quick else 1500, 70)
     ev2 = random_histories(ctx, 60 if ctx.quick else 600, 25, ctx.seed)
     random_histories(ctx, 20 if ctx.quick else 200, 30, ctx.seed + 1000, extra=["--delete-all"], label="rand_da")
+    # writers alternating between two Index instances on the same directory: an index is its directory
+    random_histories(ctx, 10 if ctx.quick else 100, 30, ctx.seed + 1200, extra=["--two"], label="rand_two")
     # long-lived segments: no forced flush, no merge policy - a segment collects deletes at its creation
     # (in-memory bitset) and then one delete file per commit (advance_deletes on top of the previous file)
     random_histories(ctx, 30 if ctx.quick else 300, 30, ctx.seed + 1500, extra=["--flush", "0", "--merge", "none", "--term-deletes"], label="rand_longseg")
